@@ -1,5 +1,7 @@
 (* Driver for the extracted C13 model. One case per input line, TAB separated:
-     A <builtin 0/1> <variant hex> <payload> <src> <steps> <final> <arms>
+     A <type name hex> <variant hex> <payload> <src> <steps> <final> <arms>
+     M <functions> <calls>   function = style|arms|nest ("-" or i0/arms), joined by ';'
+                             call = fn|varianthex:payload|varianthex:payload|direct 0/1, joined by ';' 
      Q <R|O> <ok payload> <sel> <links>
      T <checked 0/1> <ctx> <a> <b> <expr, prefix tokens separated by blanks>
      C <checked 0/1> <message hex>
@@ -118,6 +120,19 @@ let exit_s = function
   | XQBad -> "qbad"
   | XUnmodelled -> "unmodelled"
 
+let mev_s = function
+  | EM (j, i, b) -> "m " ^ string_of_int (int_of_nat j) ^ " arm " ^ string_of_int (int_of_nat i) ^ bval_s b
+  | EInner (j, i, b) -> "n " ^ string_of_int (int_of_nat j) ^ " arm " ^ string_of_int (int_of_nat i) ^ bval_s b
+  | EEnd j -> "end " ^ string_of_int (int_of_nat j)
+  | ERetV (j, i) -> "ret " ^ string_of_int (int_of_nat j) ^ " " ^ string_of_int (int_of_nat i)
+  | EDone -> "after"
+let showm tag (r : mresult) =
+  print_string tag; print_char '\t'; print_string (exit_s r.mr_exit); print_char '\t';
+  print_endline (String.concat "\x1f" (List.map mev_s r.mr_events))
+let mstyle_of = function
+  | "inline" -> MInline | "void" -> MVoid | "ret" -> MRet | "expr" -> MExpr | "loop" -> MLoop | s -> failwith ("mstyle " ^ s)
+let semi_field s = if s = "-" || s = "" then [] else split ';' s
+
 let show tag (r : result) =
   print_string tag; print_char '\t'; print_string (exit_s r.r_exit); print_char '\t';
   print_endline (String.concat "\x1f" (List.map ev_s r.r_events))
@@ -128,7 +143,7 @@ let () =
       let l = input_line stdin in
       match split '\t' l with
       | ["A"; bi; vh; p; src; steps; fin; arms] ->
-          let pa = { a_builtin = (bi = "1"); a_val = cval_of vh p; a_src = src_of src;
+          let pa = { a_builtin = builtin_of_name (unhex bi); a_val = cval_of vh p; a_src = src_of src;
                      a_steps = List.map step_of (list_field steps); a_final = final_of fin;
                      a_arms = List.map arm_of (list_field arms) } in
           show "M" (m_run_a pa); show "S" (s_run_a pa);
@@ -141,6 +156,22 @@ let () =
                      q_ok = payload_of okp; q_sel = nat_of_int (int_of_string sel) } in
           show "M" (m_run_q pq); show "S" (s_run_q pq);
           print_endline ("F\t" ^ (if safe_q pq then "1" else "0"))
+      | ["M"; fns; calls] ->
+          let fn s = match split '|' s with
+            | [st; arms; nest] ->
+                let n = if nest = "-" then None else
+                  (match split '/' nest with
+                   | [i0; a2] -> Some (nat_of_int (int_of_string i0), List.map arm_of (list_field a2))
+                   | _ -> failwith ("bad nest " ^ nest)) in
+                { f_style = mstyle_of st; f_arms = List.map arm_of (list_field arms); f_nest = n }
+            | _ -> failwith ("bad fn " ^ s) in
+          let cv s = match split ':' s with [v; p] -> cval_of v p | _ -> failwith ("bad cval " ^ s) in
+          let call s = match split '|' s with
+            | [f; v1; v2; d] -> { k_fn = nat_of_int (int_of_string f); k_val = cv v1; k_val2 = cv v2; k_direct = (d = "1") }
+            | _ -> failwith ("bad call " ^ s) in
+          let pm = { pm_fns = List.map fn (semi_field fns); pm_calls = List.map call (semi_field calls) } in
+          showm "M" (m_run_m pm); showm "S" (s_run_m pm);
+          print_endline ("F\t" ^ (if safe_m pm then "1" else "0"))
       | ["T"; ch; ctx; a; b; e] ->
           let pt = { t_checked = (ch = "1"); t_ctx = tctx_of ctx; t_a = z_of_string a; t_b = z_of_string b;
                      t_expr = parse_expr (List.filter (fun s -> s <> "") (split ' ' e)) } in
